@@ -310,10 +310,14 @@ type Driver struct {
 	// StartAllFirst starts every call before anything is delivered.
 	StartAllFirst bool
 	t0            time.Time
-	Trace         []TraceEntry
-	KeepTrace     bool
-	Delivered     []int // frame seqs in delivery order
-	Steps         int
+	// MaxChosenTicks bounds the delays the schedule may CHOOSE while an action is enabled (0 = 12); forced ticks
+	// (nothing else enabled) are not limited. ChosenTicks counts them.
+	MaxChosenTicks int
+	ChosenTicks    int
+	Trace          []TraceEntry
+	KeepTrace      bool
+	Delivered      []int // frame seqs in delivery order
+	Steps          int
 	// Results
 	HandlerPanic   string // panic inside HandleMessage on the dispatcher goroutine
 	HandlerBlocked string // a HandleMessage call that did not return at quiescence
@@ -521,6 +525,19 @@ func (d *Driver) Run() {
 				}
 				pick -= ws[i]
 			}
+		}
+		if chosen < 0 && len(acts) > 0 {
+			// the schedule chose a delay although something could be delivered. Fairness: such chosen delays are bounded
+			// per driver (default 12 = 2.4 s of virtual time), otherwise a schedule can sit out any deadline and every
+			// "completes if everything is delivered" oracle would blame the library for the harness's own starvation
+			limit := d.MaxChosenTicks
+			if limit == 0 {
+				limit = 12
+			}
+			if d.ChosenTicks >= limit {
+				chosen = d.ChosenTicks % len(acts)
+			}
+			d.ChosenTicks++
 		}
 		if chosen >= 0 {
 			if d.KeepTrace {
